@@ -1,10 +1,20 @@
 (* Properties/C03.v - accessors describe one consistent decomposition of the serialization.
    Stated for every record satisfying the executable structural invariant wf_b (Model/WF.v) and for
-   both build configurations (dbg).  That every reachable Url satisfies wf_b is C02's L1/L2
-   (see C03_reachability_statement below: not proved here; the correspondence run evaluates wf_b on
-   every reached record and lists the classes that leave it). *)
+   both build configurations (dbg).  That reachable Urls satisfy wf_b (the reachability half, C02's L1/L2)
+   is section R below: proved for EVERY parse / join result (C03_parse_reachability; file scheme included) and
+   along the mutators whose invariant preservation C06 proves (C03_reachability_partial); the remaining mutators
+   are C03_reachability_full_statement (not proved; the correspondence run evaluates wf_b on every reached
+   record and lists the classes that leave it). *)
+From Coq Require Import String.
 From RU Require Import Base.Prelude Model.HostT Model.UrlRecord Model.Parser Model.Setters Model.WF
-  Proofs.ListN Proofs.C03_WF.
+  Proofs.ListN Proofs.C03_WF Proofs.C06_Suffix Proofs.C06_HostNone Proofs.C06_Host Proofs.C06_Segments Proofs.C06_Path
+  Proofs.C06_Main Proofs.C02_Reach Proofs.C02_AuthParts Proofs.C02_AuthMain Proofs.C04_ParseTotal
+  Proofs.C03_ReachParts Proofs.C03_Reach Proofs.C03_ReachFile Proofs.C03_ReachHost Proofs.C03_ReachHist.
+Open Scope string_scope.
+Open Scope N_scope.
+Open Scope list_scope.
+(* host_text_ok is C06's predicate on records (C02_Reach has a homonym on texts) *)
+Local Notation host_text_ok := C06_Suffix.host_text_ok (only parsing).
 
 (* every Position maps to an index inside the serialization: no Index impl can panic *)
 Theorem C03_index : forall dbg u p, wf_b u = true ->
@@ -90,12 +100,113 @@ Proof.
 Qed.
 Print Assumptions C03_views.
 
-(* what remains to connect these theorems with "every reachable Url" (C02's L1 and L2); kept as a
-   statement, not proved in this development: *)
+(* ---------- R. reachability: parse results are well-formed ---------- *)
+(* the connection of the theorems above with "every reachable Url", as first stated (any host functions,
+   a base that only satisfies wf_b): *)
 Definition C03_reachability_statement : Prop :=
   forall host_parse host_parse_opaque host_display ovr base input u,
     parse_url true host_parse host_parse_opaque host_display ovr base input = POk u ->
     (match base with Some b => wf_b b = true | None => True end) -> wf_b u = true.
+
+(* it is false without a hypothesis on the host functions: with a Display for Host that starts with ':'
+   the record for "a://x" has a ':' at username_end = host_start (not a defect of the crate: url::Host never
+   prints such a text; the statement needs the hypothesis) *)
+Theorem C03_reachability_statement_refuted : ~ C03_reachability_statement.
+Proof.
+  intros H. destruct no_host_hypothesis_witness as (u & Hp & _ & Hw).
+  pose proof (H bad_hp bad_hp bad_hd None None (B "a://x") u Hp I) as W. rewrite W in Hw. discriminate.
+Qed.
+Print Assumptions C03_reachability_statement_refuted.
+
+(* Hypothesis on the host functions, HostWf hp hpo hd (C03_ReachParts.v): the display of a host returned by hp
+   or hpo, other than the empty host, is non-empty, does not start with ':' or '@' and does not end with '/';
+   the empty host is displayed as nothing.  It follows from the round-trip hypothesis HostRT of C02 (hence from
+   C02's HostOK). *)
+Theorem C03_HostRT_HostWf : forall hp hpo hd, HostRT hp hpo hd -> HostWf hp hpo hd.
+Proof. exact HostRT_HostWf. Qed.
+Check C03_HostRT_HostWf : forall hp hpo hd, HostRT hp hpo hd -> HostWf hp hpo hd.
+Print Assumptions C03_HostRT_HostWf.
+
+(* EVERY record Parser::parse_url returns is well-formed when the file scheme is not involved
+   (file_involved base input = false: the input has a scheme other than "file", or it has none and the scheme
+   of the base is not "file"): with or without a base - absolute URLs of every non-file scheme and relative
+   references of every kind ("", "?q", "#f", "//authority", "/path", "path", "http:path" against a base of
+   the same special scheme) - for every input (no scalar-value condition), every query encoding override
+   and both build configurations.  The base satisfies base_ok (wf_b, and if its scheme is special it is not
+   cannot-be-a-base: C04_ParseTotal.v) and host_text_ok (C06: its host text, if any, is non-empty and does not
+   start with ':' / '@'); the result satisfies the same two, i.e. C06's wfh. *)
+Theorem C03_parse_wf : forall dbg hp hpo hd ovr base input u,
+  HostWf hp hpo hd ->
+  match base with Some b => base_ok b = true /\ host_text_ok b | None => True end ->
+  file_involved base input = false ->
+  parse_url dbg hp hpo hd ovr base input = POk u -> wf_b u = true /\ host_text_ok u.
+Proof. intros dbg hp hpo hd ovr base input u HW. exact (parse_url_wf dbg hp hpo hd ovr HW base input u). Qed.
+Check C03_parse_wf : forall dbg hp hpo hd ovr base input u,
+  HostWf hp hpo hd ->
+  match base with Some b => base_ok b = true /\ host_text_ok b | None => True end ->
+  file_involved base input = false ->
+  parse_url dbg hp hpo hd ovr base input = POk u -> wf_b u = true /\ host_text_ok u.
+Print Assumptions C03_parse_wf.
+
+(* the same for EVERY input and base, the file scheme included ("file://host/path", "file:/path", "file:path",
+   drive letters in every spelling, references against a file base): no exclusion - the drive-letter quirks
+   (Known_file_drive, F-C01-11) change WHICH record is produced, not its layout *)
+Definition C03_parse_reachability_statement : Prop :=
+  forall dbg hp hpo hd, HostWf hp hpo hd -> forall ovr base input u,
+    match base with Some b => base_ok b = true /\ host_text_ok b | None => True end ->
+    parse_url dbg hp hpo hd ovr base input = POk u -> wf_b u = true /\ host_text_ok u.
+
+Theorem C03_parse_reachability : C03_parse_reachability_statement.
+Proof. intros dbg hp hpo hd HW ovr base input u. exact (parse_url_wf_all dbg hp hpo hd ovr HW base input u). Qed.
+Check C03_parse_reachability : forall dbg hp hpo hd, HostWf hp hpo hd -> forall ovr base input u,
+    match base with Some b => base_ok b = true /\ host_text_ok b | None => True end ->
+    parse_url dbg hp hpo hd ovr base input = POk u -> wf_b u = true /\ host_text_ok u.
+Print Assumptions C03_parse_reachability.
+
+(* histories: reach03 dbg hp hpo hd (C03_ReachHist.v) = parse and join results (a base is a reached record
+   that satisfies base_ok), closed under set_fragment, set_query, set_port, set_password, set_username,
+   set_scheme, set_host(None) (outside F-C06-5 / F-C02-2), set_ip_host (outside its known classes), set_path
+   and path_segments_mut sessions on records with an authority.  Every such record satisfies
+   wfh = wf_b /\ host_text_ok, the premise of the theorems above and of C06. *)
+Theorem C03_reachability_partial : forall dbg hp hpo hd, HostWf hp hpo hd ->
+  forall u, reach03 dbg hp hpo hd u -> wf_b u = true /\ host_text_ok u.
+Proof. exact reach03_wfh. Qed.
+Check C03_reachability_partial : forall dbg hp hpo hd, HostWf hp hpo hd ->
+  forall u, reach03 dbg hp hpo hd u -> wf_b u = true /\ host_text_ok u.
+Print Assumptions C03_reachability_partial.
+
+(* hence, e.g., no Position index of a reached record can panic, and its accessors re-concatenate *)
+Theorem C03_reachable_index : forall dbg hp hpo hd u p, HostWf hp hpo hd -> reach03 dbg hp hpo hd u ->
+  exists i, position_index dbg u p = Some i /\ i <= nlen (ser u).
+Proof. intros dbg hp hpo hd u p HW R. apply C03_index. exact (proj1 (reach03_wfh dbg hp hpo hd HW u R)). Qed.
+Print Assumptions C03_reachable_index.
+
+(* what is still missing for "every reachable Url" in the sense of C02 (Reachable: parse, join and all 19
+   mutators outside the known classes): the mutators that reach03 does not have (set_host(Some), the quirks
+   setters, path setters on authority-less records) and base_ok for reached bases *)
+Definition C03_reachability_full_statement : Prop :=
+  forall dbg hp hpo hd, HostWf hp hpo hd -> forall u, Reachable dbg hp hpo hd u -> wf_b u = true.
+
+(* non-vacuity: the host hypothesis has an instance; with it, joins of every kind of relative reference are
+   outside the file class, meet the premises on the base, and give the expected well-formed records *)
+Example C03_HostWf_inhabited : HostWf ex_hp ex_hp ex_hd.
+Proof. exact ex_host_wf. Qed.
+
+Example C03_parse_wf_inhabited :
+  ex_join "http://u@h.x:81/a/b?q#f" "../c?r" "http://u@h.x:81/c?r" = true
+  /\ ex_join "http://u@h.x:81/a/b?q#f" "//o.x/" "http://o.x/" = true
+  /\ ex_join "http://u@h.x:81/a/b?q#f" "#g" "http://u@h.x:81/a/b?q#g" = true
+  /\ ex_join "http://u@h.x:81/a/b?q#f" "?y" "http://u@h.x:81/a/b?y" = true
+  /\ ex_join "http://u@h.x:81/a/b?q#f" "http:rel" "http://u@h.x:81/a/rel" = true
+  /\ ex_join "a://h/p/q?x" "/z" "a://h/z" = true
+  /\ ex_join "a://h/p/q?x" "" "a://h/p/q?x" = true
+  /\ ex_join "a:/p/q" "..//r" "a:/.//r" = true.
+Proof. exact join_examples. Qed.
+
+Example C03_parse_file_inhabited :
+  ex_file "file://h/C|/x" "file:///C:/x" = true /\ ex_file "file:///C|" "file:///C|" = true
+  /\ ex_file "file:\\h\p?q#f" "file://h/p?q#f" = true /\ ex_file "file:x" "file:///x" = true.
+Proof. destruct file_examples as (A & B & C & D & _). repeat split; assumption. Qed.
 
 (* non-vacuity: a concrete record (http://u:p@h:81/a?q#f) satisfies wf_b *)
 Example C03_wf_inhabited :
